@@ -54,7 +54,7 @@ def run_c07(tier, seed):
     v.assumptions += ["the blocked state is real kernel back-pressure (2 KiB receive buffer, peer not reading); busy-waiting is decided by COUNTING socket write attempts on the blocked descriptor (interposed send), not by wall-clock",
                       "other connections are given a generous, load-scaled bound (5 s x load factor) to be answered; the blocked peer is released only after they were answered"]
     return _finish(v, work, counters, distinct, samples, stats,
-                   "1-worker endpoint; connection A requests 4-24 MiB with a 2 KiB receive buffer and does not read (0-3 further writes queued behind); 1-3 other connections issue requests before / during / repeatedly during the block; after 0.2-1.1 s A reads everything (byte-exact tagged body). distinct = (size, queued writes, other connections, arrival pattern, stall length)")
+                   "1-worker endpoint; connection A requests 4-24 MiB with a 2 KiB receive buffer and does not read (0-3 further writes queued behind); 1-3 other connections issue requests before / during / repeatedly during the block; after 0.2-1.1 s A reads everything (byte-exact tagged body); variants: streamed response flushed per chunk, file response, input from the blocked peer during the stall, a write chained on the blocked one, and a slow streamed response whose client starts reading while the handler is still flushing (what was parked is completed by one of the handler's own flushes). distinct = (size, queued writes, other connections, arrival pattern, stall length)")
 
 def run_c08(tier, seed):
     v = vlib.Verdict("C08", tier, seed, level="fault_enumeration")
